@@ -64,6 +64,10 @@ def cases(tier, seed, PROP):
         for k in range(12 if tier == 'quick' else 200):
             yield {'stratum': 'explicit-origin-reference-zero', 'index': k, 'kind': 'origin-zero'}
         yield {'stratum': 'kf-regression', 'index': 0, 'kind': 'kf-c07-across-sets'}
+        # logical files built in an interleaved order: objects of the last one wait for their origin while the others get
+        # theirs (with an explicit reference, which a later origin of the waiting file carries as well)
+        for k in range(60 if tier == 'quick' else 1200):
+            yield {'stratum': 'origins-of-interleaved-logical-files', 'index': k, 'kind': 'origin-race'}
         # the origin's reference re-assigned before the other objects are added; one header object given to two logical files
         for k in range(16 if tier == 'quick' else 300):
             yield {'stratum': 'header-origin-field', 'index': k, 'kind': 'header-origin'}
@@ -76,7 +80,8 @@ def cases(tier, seed, PROP):
         # identities changed between two writes (rename, another origin): references must follow
         for k in range(60 if tier == 'quick' else 1500):
             yield {'stratum': 'identity-change-then-rewrite', 'index': k, 'kind': 'rewrite'}
-    if PROP == 'C09':
+    if PROP in ('C09', 'C04'):
+        # the header's id (incl. ids longer than the 65 characters of its field) / sequence number re-assigned between writes
         for k in range(40 if tier == 'quick' else 800):
             yield {'stratum': 'header-change-then-rewrite', 'index': k, 'kind': 'rewrite'}
     if PROP == 'C09':
@@ -386,7 +391,7 @@ def _build_spec(case, PROP, r):
         return sp
     if k == 'rewrite':
         from vf.checks import c14
-        if PROP == 'C09':
+        if PROP in ('C09', 'C04'):
             return metagen.meta_spec(r, avoid=avoid, n_objects=r.choice([0, 3]), lf_count=r.choice([1, 2]), later_p=0.0)
         return c14.base_spec(r, avoid)
     if k == 'graph':
@@ -396,6 +401,22 @@ def _build_spec(case, PROP, r):
                                         'group', 'calibration', 'calibration_coefficient', 'calibration_measurement',
                                         'axis', 'long_name', 'well_reference_point'],
                                  lf_count=r.choice([1, 1, 2]))
+    if k == 'origin-race':
+        nlf = r.choice([2, 2, 3])
+        sp = metagen.meta_spec(r, avoid=avoid, n_objects=r.choice([3, 6]), n_origins=2, origin_pos=r.choice(['middle', 'last']),
+                               lf_count=nlf, later_p=0.0)
+        explicit = any(isinstance(o.get('origin_reference'), int) or (o['op'] == 'origin' and 'origin_reference' in o.get('attrs', {}))
+                       for o in sp['ops'])
+        if not explicit:
+            RA = r.choice([1, 5, 127, 200])
+            for l in range(nlf):
+                mine = [o for o in sp['ops'] if o['op'] == 'origin' and o.get('lf', 0) == l]
+                if l < nlf - 1:
+                    mine[0]['attrs']['origin_reference'] = RA + l      # the first origin of the files that get theirs early
+                elif r.random() < 0.6:
+                    mine[1]['attrs']['origin_reference'] = RA          # ... which the waiting file's SECOND origin carries too
+        metagen.interleave(sp, r, origin_race=True)
+        return sp
     if k == 'kf-c07-across-sets':
         sp = gen.minimal(8192)
         sp['ops'].append({'op': 'zone', 'name': 'Z', 'set_name': 'A', 'attrs': {'description': 'first'}})
@@ -585,10 +606,13 @@ def run_case(case, PROP):
                     later_ops.append({'op': 'setattr', 'target': i, 'field': 'name', 'value': f'RENAMED-{i}-{len(later_ops)}'})
                     bump('rewrite-renamed')
             bump('identity-change-then-rewrite')
-        elif PROP == 'C09':
+        elif PROP in ('C09', 'C04'):
             for l in range(len(sp.get('lfs', [{}]))):
                 if r.random() < 0.7:
-                    later_ops.append({'op': 'set_header', 'lf': l, 'field': 'header_id', 'value': gen.name(r, f'NEWHDR{l}', r.choice([8, 30, 65]), hc=True)})
+                    n_ = r.choice([8, 30, 65, 65, 66, 100])
+                    if n_ > 65:
+                        bump('header-id-reassigned-longer-than-its-field')
+                    later_ops.append({'op': 'set_header', 'lf': l, 'field': 'header_id', 'value': gen.name(r, f'NEWHDR{l}', n_, hc=True)})
                 if r.random() < 0.7:
                     later_ops.append({'op': 'set_header', 'lf': l, 'field': 'sequence_number', 'value': r.choice([2, 77, 10 ** 10 - 1])})
             bump('header-change-then-rewrite')
